@@ -415,10 +415,10 @@ impl Fw {
                     ref_live = now <= e.expiry;
                 }
             }
-            // a fresh decision from the live claims is always legitimate
-            let _ = ref_live;
+            // a fresh decision from the live claims is always legitimate; so is "no route" once the remembered
+            // decision is past its expiry and only waits for the next sweep
             if lpm_peers.is_empty() {
-                if admissible.is_empty() {
+                if admissible.is_empty() || !ref_live {
                     admissible.push(None);
                 }
             } else {
